@@ -186,4 +186,51 @@ def cycleOuts : List LoopOut → List CycleOut
   | .cycled o :: rest => o :: cycleOuts rest
   | _ :: rest => cycleOuts rest
 
+
+/-! ### The sarama shim (helpers.BurrowSaramaClient / BurrowSaramaBroker)
+
+  `Env` above is what the module is ANSWERED through `helpers.SaramaClient`.  In production that
+  interface is implemented by a shim over `sarama.Client`; the model identifies the two, which is right
+  exactly when the shim hands every answer through unchanged.  The shim's source is regenerated as facts
+  (F12) and checked by `Shim.transparent`. -/
+namespace Shim
+
+/-- a method that is nothing but `return <wrapped>.<Method>(<its own parameters>)` -/
+def passThrough (wrapped method args : String) (body : List String) : Bool :=
+  body == ["return " ++ wrapped ++ "." ++ method ++ "(" ++ args ++ ")"]
+
+def lookup (facts : List (String × List String)) (k : String) : List String :=
+  match facts.find? (·.1 == k) with
+  | some e => e.2
+  | none => ["<missing>"]
+
+/-- `Leader`: the client's answer, the broker wrapped iff there is one, the error as it came -/
+def leaderBody : List String :=
+  ["assign broker, err := c.Client.Leader(topic, partitionID)", "decl var shimBroker *BurrowSaramaBroker",
+   "if broker != nil", "assign shimBroker = &BurrowSaramaBroker{broker}", "return shimBroker, err"]
+
+def groupsBody : List String :=
+  ["assign admin, err := sarama.NewClusterAdminFromClient(c.Client)", "if err != nil", "return nil, err",
+   "return admin.ListConsumerGroups()"]
+
+/-- the shim adds nothing, drops nothing and remembers nothing between calls -/
+def transparent (facts : List (String × List String)) : Bool :=
+  passThrough "c.Client" "Topics" "" (lookup facts "BurrowSaramaClient.Topics") &&
+  passThrough "c.Client" "Partitions" "topic" (lookup facts "BurrowSaramaClient.Partitions") &&
+  passThrough "c.Client" "WritablePartitions" "topic" (lookup facts "BurrowSaramaClient.WritablePartitions") &&
+  passThrough "c.Client" "RefreshMetadata" "topics..." (lookup facts "BurrowSaramaClient.RefreshMetadata") &&
+  passThrough "c.Client" "GetOffset" "topic, partitionID, timestamp" (lookup facts "BurrowSaramaClient.GetOffset") &&
+  passThrough "c.Client" "Close" "" (lookup facts "BurrowSaramaClient.Close") &&
+  passThrough "b.broker" "ID" "" (lookup facts "BurrowSaramaBroker.ID") &&
+  passThrough "b.broker" "Close" "" (lookup facts "BurrowSaramaBroker.Close") &&
+  passThrough "b.broker" "GetAvailableOffsets" "request" (lookup facts "BurrowSaramaBroker.GetAvailableOffsets") &&
+  lookup facts "BurrowSaramaClient.Leader" == leaderBody &&
+  lookup facts "BurrowSaramaClient.ListConsumerGroups" == groupsBody &&
+  lookup facts "BurrowSaramaClient.NewConsumerFromClient" == ["return sarama.NewConsumerFromClient(c.Client)"] &&
+  -- no state of its own: a cache between calls is state an old answer can be served from
+  lookup facts "type BurrowSaramaClient" == ["Client sarama.Client"] &&
+  lookup facts "type BurrowSaramaBroker" == ["broker *sarama.Broker"]
+
+end Shim
+
 end Burrow.Cluster
